@@ -27,7 +27,14 @@ type Ctx struct {
 	Funcs map[string]*ssa.Function
 	// stats
 	NumFiles, NumFuncs, NumInstrs int
+	// what the source normalisation did (nil when switched off)
+	Norm *inlineReport
 }
+
+var (
+	noInline       bool
+	dumpNormalised string
+)
 
 // LoadRepo loads ./src of the repository from source (never cached between runs),
 // type-checks it and builds SSA for the whole program.
@@ -52,6 +59,29 @@ func LoadRepo(repoDir, tier string, tags []string, goos string) (*Ctx, error) {
 	}
 	if len(tags) > 0 {
 		cfg.BuildFlags = []string{"-tags=" + strings.Join(tags, ",")}
+	}
+	// normalisation: calls to helpers that are not part of the reviewed decomposition are inlined
+	var norm *inlineReport
+	if !noInline {
+		overlay, rep, nerr := normaliseSources(repoDir, clean, cfg.BuildFlags)
+		if nerr != nil {
+			return nil, fmt.Errorf("normalisation: %w", nerr)
+		}
+		norm = rep
+		if dumpNormalised != "" {
+			for _, k := range rep.Kept {
+				fmt.Fprintln(os.Stderr, "normalise: kept:", k)
+			}
+		}
+		if overlay != nil {
+			cfg.Overlay = overlay
+			if dumpNormalised != "" {
+				for path, src := range overlay {
+					_ = os.MkdirAll(dumpNormalised, 0o755)
+					_ = os.WriteFile(dumpNormalised+"/"+path[strings.LastIndex(path, "/")+1:], src, 0o644)
+				}
+			}
+		}
 	}
 	pkgs, err := packages.Load(cfg, "./src")
 	if err != nil {
@@ -82,7 +112,7 @@ func LoadRepo(repoDir, tier string, tags []string, goos string) (*Ctx, error) {
 	} else {
 		spkgs[0].Build()
 	}
-	c := &Ctx{RepoDir: repoDir, Tier: tier, Fset: root.Fset, Pkg: root, AllPkgs: pkgs, Prog: prog, SPkg: spkgs[0], Funcs: map[string]*ssa.Function{}}
+	c := &Ctx{RepoDir: repoDir, Tier: tier, Fset: root.Fset, Pkg: root, AllPkgs: pkgs, Prog: prog, SPkg: spkgs[0], Funcs: map[string]*ssa.Function{}, Norm: norm}
 	c.NumFiles = len(root.Syntax)
 	var addFn func(f *ssa.Function)
 	addFn = func(f *ssa.Function) {
